@@ -39,7 +39,7 @@ VERIF = os.path.dirname(HERE)
 REPO = os.environ.get("AY_REPO", "/repo")
 
 KNOWN = {  # deviation switch -> (finding id, call site, what fails)
-    "IndexReachesKwOnly": ("F15", "awesomeyaml/nodes/function.py FunctionNode._resolve_args (index -> name table)",
+    "IndexReachesKwOnly": ("F16", "awesomeyaml/nodes/function.py FunctionNode._resolve_args (index -> name table)",
                            "an integer argument key after a gap reaches a keyword-only parameter or the **kwargs name when the "
                            "target has no *args (the table stops only at VAR_POSITIONAL): `!call:f {1: 5}` with f(a=0, *, k=1) "
                            "calls f(k=5) instead of failing"),
@@ -645,7 +645,8 @@ def _run(tier, seed, wd):
                                               ["Inv_PassesAsPython", "Inv_BindIsPartial", "Inv_PartialCompletes"], sw, mu, False)
     fut["witness13"] = tp.submit(E.exhaustive, PROP, "C13_Docs3", 2, 2, ["NotWitness13"], _sub(wd, "witness13"), module="MC_C13",
                                  doc_range="C13_Range3", emit=False)
-    for mu in MERGE_MUTATIONS:
+    merge_mutations = MERGE_MUTATIONS[:3] if tier == "quick" else MERGE_MUTATIONS      # quick: the three aimed at the table rows
+    for mu in merge_mutations:
         fut["mmut_" + mu["mutation"]] = tp.submit(E.exhaustive, PROP, "C13_Docs3", 2, 2, ["Inv_C13"], _sub(wd, "mut_" + mu["mutation"]),
                                                   module="MC_C13", mutation=mu["mutation"], emit=False, doc_range="C13_Range3",
                                                   next_=mu.get("next", "Next"))
@@ -858,7 +859,7 @@ def _run(tier, seed, wd):
     cov["samples"].append({"recorded_history_yaml": [S.render_doc(x) for x in tid_info[t["tid"]][0]], "verdict": list(rows[t["tid"]][:3])})
 
     _lap('M3 validate')
-    for mu in MERGE_MUTATIONS:
+    for mu in merge_mutations:
         ex = fut["mmut_" + mu["mutation"]].result()
         cov["mutations"].append({"mutation": mu["mutation"], "module": "MC_C13", "universe": "C13_Docs3", "refuted_by_tlc": bool(ex["violated"]),
                                  "violated": ex["violated"], "tlc_wall_s": round(ex["wall"], 1)})
